@@ -10,6 +10,10 @@ namespace CtyModel
 namespace Refine
 open NumCmp
 
+/-! `Tri` derives `BEq` and `DecidableEq` separately; these tie them together for `simp` -/
+@[simp] theorem tri_bne (a b : Tri) : (a != b) = !decide (a = b) := by cases a <;> cases b <;> rfl
+@[simp] theorem tri_beq (a b : Tri) : (a == b) = decide (a = b) := by cases a <;> cases b <;> rfl
+
 def Le (a b : Num) : Prop := Num.cmp a b ≤ 0
 def Lt (a b : Num) : Prop := Num.cmp a b < 0
 
